@@ -21,6 +21,7 @@ from . import prog as P
 PROP = 'C14'
 LEVEL = 'fault_enumeration'
 STEP_UNIT = 'call-back invocations (markers and fault sites called by the renderer)'
+CHUNK = 2      # consecutive runs per forked child (core.worker)
 CASE_TIMEOUT = 300
 TIERS = {'quick': (2600, 170), 'thorough': (120000, 2400)}
 PROBES = ['handler_by_exact_name', 'handler_by_base_class',
